@@ -333,6 +333,23 @@ func checkC08(c *core.Ctx) {
 			})
 			c.Check("R9", m+" moves bytes only through the error-latching wrapper "+kindName(rf.Spec.Kind), anchorPos(gr.p, rf.Spec.Kind, m), bypass == "",
 				"emitted code calls "+bypass+": what goes to the underlying stream directly is not seen by the wrapper, so its failure is never recorded and the method returns a nil latch — "+rf.where(mf.Decl.Pos()))
+			// R3d: on the syntax tree of every emitted DecodeBebop, understood or
+			// not: a return of nil, or of the error of a call that is not given
+			// the reader, is not reached with a stream read behind it whose
+			// outcome was not looked at
+			if m == mSR {
+				bad, unsure := unlatchedReturns(mf.Decl)
+				key := m + " consults the latch before returning anything else " + kindName(rf.Spec.Kind)
+				switch {
+				case bad != nil && !unsure:
+					c.Check("R3d", key, anchorPos(gr.p, rf.Spec.Kind, m), false,
+						"DecodeBebop returns "+wire.Canon(bad.Results[0])+" after reading from the stream without having tested r.Err: a failed or short read is reported as success — "+rf.where(bad.Pos()))
+				case bad != nil:
+					c.Undecide("C08/R3d: %s returns %s after a stream read and uses r.Err in a way that is not the guard `if r.Err != nil { return … }` — %s", m, wire.Canon(bad.Results[0]), rf.where(bad.Pos()))
+				default:
+					c.Check("R3d", key, anchorPos(gr.p, rf.Spec.Kind, m), true, "")
+				}
+			}
 		}
 	}
 	gr.sample(2)
@@ -352,4 +369,139 @@ func checkC20(c *core.Ctx) {
 	iohelpLatchRules(c, p, "R6l", "R6a", "R6d", "-")
 	dropRules(c, "-")
 	iohelpMustUse(c, p, "R5m")
+}
+
+// unlatchedReturns walks a DecodeBebop body in statement order with one bit of
+// state — a read from the stream has happened whose outcome was not tested —
+// and returns the first `return nil` / `return f(…)` (f not given the reader)
+// reached in that state. unsure reports that r.Err is used somewhere in a form
+// other than the guard, so the bit may be wrong.
+func unlatchedReturns(fd *ast.FuncDecl) (bad *ast.ReturnStmt, unsure bool) {
+	mentions := func(n ast.Node, what ...string) bool {
+		found := false
+		ast.Inspect(n, func(k ast.Node) bool {
+			if e, ok := k.(ast.Expr); ok {
+				for _, w := range what {
+					if wire.Canon(e) == w {
+						found = true
+					}
+				}
+			}
+			return !found
+		})
+		return found
+	}
+	// a call that can move the stream: a method of r, or any call given r / ior,
+	// except the constructor that only wraps it
+	reads := func(n ast.Node) bool {
+		found := false
+		ast.Inspect(n, func(k ast.Node) bool {
+			call, ok := k.(*ast.CallExpr)
+			if !ok {
+				return !found
+			}
+			if sel, ok := ast.Unparen(call.Fun).(*ast.SelectorExpr); ok {
+				if wire.Canon(sel.X) == "r" {
+					found = true
+				}
+				if sel.Sel.Name == "NewErrorReader" {
+					return false
+				}
+			}
+			for _, a := range call.Args {
+				if c := wire.Canon(a); c == "r" || c == "ior" {
+					found = true
+				}
+			}
+			return !found
+		})
+		return found
+	}
+	isGuard := func(s ast.Stmt) bool {
+		x, ok := s.(*ast.IfStmt)
+		if !ok || x.Init != nil || x.Else != nil || len(x.Body.List) == 0 {
+			return false
+		}
+		b, ok := ast.Unparen(x.Cond).(*ast.BinaryExpr)
+		if !ok || b.Op != token.NEQ || wire.Canon(b.X) != "r.Err" || wire.Canon(b.Y) != "nil" {
+			return false
+		}
+		_, isRet := x.Body.List[len(x.Body.List)-1].(*ast.ReturnStmt)
+		return isRet
+	}
+	var walk func(stmts []ast.Stmt, dirty bool) bool
+	walk = func(stmts []ast.Stmt, dirty bool) bool {
+		for _, s := range stmts {
+			if isGuard(s) {
+				dirty = false
+				continue
+			}
+			switch x := s.(type) {
+			case *ast.ReturnStmt:
+				if len(x.Results) == 1 && dirty && bad == nil {
+					r := ast.Unparen(x.Results[0])
+					if id, ok := r.(*ast.Ident); ok && id.Name == "nil" {
+						bad = x
+					}
+					if call, ok := r.(*ast.CallExpr); ok && !reads(call) && !mentions(call, "r.Err") {
+						bad = x
+					}
+				}
+				continue
+			case *ast.BlockStmt:
+				dirty = walk(x.List, dirty)
+				continue
+			case *ast.IfStmt:
+				if x.Init != nil && reads(x.Init) || reads(x.Cond) {
+					dirty = true
+				}
+				if mentions(x.Cond, "r.Err") {
+					unsure = true
+				}
+				d := walk(x.Body.List, dirty)
+				if x.Else != nil {
+					d = walk([]ast.Stmt{x.Else}, dirty) || d
+				} else {
+					d = d || dirty
+				}
+				dirty = d
+				continue
+			case *ast.ForStmt:
+				if x.Init != nil && reads(x.Init) || x.Cond != nil && reads(x.Cond) || x.Post != nil && reads(x.Post) {
+					dirty = true
+				}
+				dirty = walk(x.Body.List, dirty) || dirty
+				dirty = walk(x.Body.List, dirty) || dirty
+				continue
+			case *ast.RangeStmt:
+				if reads(x.X) {
+					dirty = true
+				}
+				dirty = walk(x.Body.List, dirty) || dirty
+				dirty = walk(x.Body.List, dirty) || dirty
+				continue
+			case *ast.SwitchStmt:
+				if x.Init != nil && reads(x.Init) || x.Tag != nil && reads(x.Tag) {
+					dirty = true
+				}
+				d := dirty
+				for _, cc := range x.Body.List {
+					d = walk(cc.(*ast.CaseClause).Body, dirty) || d
+				}
+				dirty = d
+				continue
+			case *ast.DeferStmt:
+				continue
+			}
+			if reads(s) {
+				dirty = true
+			}
+			if mentions(s, "r.Err") {
+				unsure = true
+			}
+		}
+		return dirty
+	}
+	walk(fd.Body.List, false)
+	return bad, unsure
 }
